@@ -124,7 +124,51 @@ def c08(tier, seed):
     return res
 
 
-CHECKS = {"C08": c08, "C04": c04, "C05": c05, "C01": c01, "C10": c10, "C11": c11, "C12": c12}
+def _c09_signature(why):
+    import re
+    flat = " ".join(why.split())
+    m = re.search(r'"WHY", "(.*?)", "compiled"', flat)
+    return {"kind": "count", "grammar": m.group(1)[:200] if m else flat[:200],
+            "mismatches": re.findall(r'<<(<<[0-9, ]+>>), "expected", (TRUE|FALSE), "got", (\d)>>', flat)[:5]}
+
+
+def c09(tier, seed):
+    import random
+    from . import num, countgen
+    res = core.Result("C09", tier, seed)
+    rng = random.Random(f"C09-{seed}")
+    # U1: the K-factored encoding of grammar_builder.rs, transcribed (spec/Repeat.tla), admits exactly m..n
+    u1 = core.tlc_check("MC_Repeat", workers=4, timeout=900)
+    if not u1["ok"]:
+        raise core.ToolError("MC_Repeat failed:\n" + u1.get("tail", ""))
+    res.add_tlc(u1)
+    res.cov["u1_models"].append({"model": "MC_Repeat (K=4, all 0<=m<=n<=40 and unbounded)", "distinct_states": u1["distinct"]})
+    if tier == "quick":
+        cases = countgen.build(rng, 16, 150, stride=3)
+    else:
+        cases = countgen.build(rng, 40, 3000)
+    rejects = num.run_cases("C09", tier, seed, cases, res, "Trace_Count", nshards=12 if tier == "quick" else 16, timeout=7200)
+    for rj in rejects:
+        res.violation(_c09_signature(num.explain("Trace_Count", rj["replay"])), rj["replay"])
+    res.cov["distinct_nontrivial"] = len({c["meta"]["gtext"] for c in cases})
+    res.cov["rule"] = ("cases = one grammar/schema per (m, n, level): x{m,n} / x{m,} / * + ? on a rule, a group, nested, a "
+                       "terminal, inside a regex; JSON min/maxItems, min/maxLength (1-4 byte characters, escapes), "
+                       "min/maxProperties; pairs of repetitions of one rule; probes with k = 0..n+3 copies; TLC decides "
+                       "m <= k <= n (spec/Trace_Count.tla); evaluations = probe verdicts")
+    wd = core.os.path.join(core.WORK, f"C09-{tier}")
+    lines = core.read_lines(core.os.path.join(wd, "trace0.ndjson"))
+    ev = json.loads(lines[1])
+    ev["lits"][0]["acc"] = 1 - min(1, ev["lits"][0]["acc"])
+    bp = core.os.path.join(wd, "negctl.ndjson")
+    open(bp, "w").write(lines[0] + "\n" + json.dumps(ev) + "\n")
+    r = core.tlc_trace("Trace_Count", bp, tag="neg-C09")
+    res.cov["negative_controls"].append({"flipped_verdict_rejected": not r["accepted"]})
+    if r["accepted"]:
+        raise core.ToolError("negative control accepted")
+    return res
+
+
+CHECKS = {"C09": c09, "C08": c08, "C04": c04, "C05": c05, "C01": c01, "C10": c10, "C11": c11, "C12": c12}
 
 
 def setup():
